@@ -450,8 +450,10 @@ def upset(p, rng=None):
 def compare_tables(p, exp, check_derived=True):
     """Observed decay tables vs reference semantics -> list of (mechanism, message)."""
     out = []
+    upset_done = False
     if _upset_rng.random() < UPSET_RATE:
         upset(p)
+        upset_done = True
     mothers = list(p.list_decay_mother_names())
     n = p.number_of_decays
     nblock = len(exp["order"])
@@ -465,10 +467,15 @@ def compare_tables(p, exp, check_derived=True):
             return out
         if n != nblock + len(exp["derived"]):
             out.append(("tables:count", f"number_of_decays {n} expected {nblock + len(exp['derived'])}"))
-    obs = tables(p)
     allexp = dict(exp["tables"])
     if check_derived:
         allexp.update(exp["derived"])
+    if upset_done and check_derived:
+        # right after the things that went wrong, before anything is printed successfully: the chain question (any mother with lines)
+        out.extend(chain_route(p, allexp, limit=3, any_mother=True))
+        if out:
+            return out
+    obs = tables(p)
     for m, lines in allexp.items():
         got = obs.get(m)
         kind = "derived" if m in exp["derived"] else "block"
@@ -534,7 +541,7 @@ def print_route(p, allexp, limit=3):
 PRINT_ROUTE_COUNT = [0]
 
 
-def chain_route(p, allexp, limit=4, max_size=400):
+def chain_route(p, allexp, limit=4, max_size=400, any_mother=False):
     """The same tables seen through the other documented query: build_decay_chains(M) nests, below every daughter that has a table -- written, copied
     or conjugated alike --, that daughter's table.  Judged for a few mothers whose (acyclic) unfolding is small."""
     from . import chains as CH  # noqa: PLC0415
@@ -550,7 +557,7 @@ def chain_route(p, allexp, limit=4, max_size=400):
     for m in cands:
         if done >= limit:
             break
-        if not any(x in T for ln in T[m] for x in ln["fs"]) or not CT._reach_acyclic(T, m):
+        if not T[m] or (not any_mother and not any(x in T for ln in T[m] for x in ln["fs"])) or not CT._reach_acyclic(T, m):
             continue
         size, npaths = CH.ref_sizes(T, m, memo)
         if size > max_size:
